@@ -368,7 +368,11 @@ class Evaluator:
                 raise XlError('#DIV/0!')
             return x / y
         if op == '&':
-            if self.strict_text and (isinstance(a, (bool, float)) or isinstance(b, (bool, float)) or a is BLANK or b is BLANK):
+            def _open(v):
+                # a whole float (4/2, 0/-5) has the text form of that whole number - no negative zero among them; other floats,
+                # logicals and blanks are C17 territory
+                return v is BLANK or isinstance(v, bool) or (isinstance(v, float) and not (v == v and abs(v) < 1e15 and v == int(v)))
+            if self.strict_text and (_open(a) or _open(b)):
                 raise NoOpinion('text form of a boolean/float operand of & (C17 territory)')
             return text_of(a) + text_of(b)
         return self.compare(op, a, b)
